@@ -24,7 +24,7 @@ THEOREMS = [
     "dv_and_range_commute", "start_row_sound", "rowset_range_scan_exact", "guard_implies_precondition",
     "guarded_range_scan_exact", "reachable_range_scan_exact", "range_scan_precondition_key_first", "range_scan_precondition_key_col0",
     "range_scan_precondition_key_type", "range_guard_regression", "range_scan_dup_boundary_regression",
-    "scan_filter_residual", "scan_filter_false_regression",
+    "scan_filter_residual", "scan_filter_false_regression", "range_scan_exact_with_handler",
 ]
 
 
@@ -96,6 +96,7 @@ def judge_case13(r, T):
     if notes:
         T.corr.append(("history", "case %d: a write statement did not succeed: %s" % (cid, notes), {"case": r["line"]}))
         return
+    judge_deletes13(r, T)
     lay_i = [x for x in (field(obs, "lay") or []) if len(x) > 2]
     lay_m = [x for x in (field(ans, "lay") or []) if len(x) > 2]
     T.mvi["compared"] += 1
@@ -140,14 +141,17 @@ def judge_case13(r, T):
             continue
         agree, mexec, impl = res
         scols = [int(x) for x in sreq[1][1:]]
+        hflag = sreq[4] if len(sreq) > 4 else "0"
+        if hflag != "0":
+            T.dist["scan with the row-handler column"] += 1
         if sreq[2] == "none":
-            base = (scols, impl)
+            base = (scols + [hflag], impl)
             continue
         # oracle: unfiltered scan of the same columns + python filter on the sort key - for calls
         # within the storage API's documented precondition (range filter = first column of the
         # row-sets = first scanned column = INT sort key, Int32 bounds), which is also what the
         # planner's guard admits; other calls are compared with the model only
-        if pkdecl != "col" or base is None or base[0] != scols or base[1] is None:
+        if pkdecl != "col" or base is None or base[0] != scols + [hflag] or base[1] is None:
             continue
         bounds = [b[1] for b in (sreq[2][1], sreq[2][2]) if b != "unb"]
         if not (pk == "0" and scols[0] == 0 and cols[0][0] == "i32" and all(v.startswith("i32:") for v in bounds)):
@@ -180,6 +184,44 @@ def judge_case13(r, T):
                                    {"case": r["line"], "scan": sreq, "impl": si, "want": want, "tags": tags, "attributed": sigs}))
         elif got:
             T.nontrivial.add((cid, str(sreq)))
+
+
+def judge_deletes13(r, T):
+    """Key-range DELETEs of the history (their scan = columns + row handler + pushed KeyRange):
+    rows removed = python filter of the rows before, reported count, remaining rows."""
+    c, obs = r["case"], r["obs"]
+    cid = r["id"]
+    dels = [o for o in (field(c, "ops") or []) if o[0] == "delr"]
+    seen = field(obs, "deletes") or []
+    for op, ob in zip(dels, seen):
+        col = int(op[1])
+        rng = ["range", op[2], op[3]]
+        before = out_rows(field(ob, "before")[0])
+        after = out_rows(field(ob, "after")[0])
+        cnt = out_rows(field(ob, "count")[0])
+        T.dist["key-range DELETE"] += 1
+        if before is None or after is None:
+            continue
+        consts = [b[1] for b in (op[2], op[3]) if b != "unb"]
+        if any(v == "null" for v in consts):
+            continue
+        hit = [tuple(row) for row in before if in_range_py(rng, row[col])]
+        want_after = bag(tuple(row) for row in before) - bag(hit)
+        T.ivo["compared"] += 1
+        n_rep = int(cnt[0][0].split(":")[1]) if cnt and cnt[0] and ":" in cnt[0][0] else None
+        problems = []
+        if cnt is None:
+            problems.append("the statement failed")
+        if bag(tuple(row) for row in after) != want_after:
+            problems.append("removed %d rows, the range holds %d" % (len(before) - len(after), len(hit)))
+        if n_rep is not None and n_rep != len(hit):
+            problems.append("reported %d affected rows, the range holds %d" % (n_rep, len(hit)))
+        if problems:
+            T.ivo["disagree"] += 1
+            T.findings.append(("unexplained:delete-range", "DELETE FROM t WHERE <c%d in %s>: %s (case %d)" % (col, rng[1:], "; ".join(problems), cid),
+                               {"case": r["line"], "delete": op, "before": len(before), "after": len(after)}))
+        elif hit:
+            T.nontrivial.add((cid, "delete " + str(op)))
 
 
 def judge_query13(r, T, qid, g, nrs):
@@ -278,7 +320,7 @@ def judge_query13(r, T, qid, g, nrs):
 
 
 def run(ck):
-    n = 380 if ck.quick() else 3300
+    n = 320 if ck.quick() else 2800
     run_translators(ck)
     bad = vlib.step_lean(ck, "RlModel.Thm.C13", THEOREMS, extra_targets=["drv_c13"])
     ok, log = vlib.step_cargo(ck, ["c13"])
